@@ -478,6 +478,70 @@ func init() {
 					out := runLiteral(c, k, l, d[2], d[3] == 1)
 					c.Case(0, true, out)
 				}})
+			// literals written just below / exactly at / just above the midpoint of two neighbouring
+			// float32 (float64) values: they must be rounded ONCE, directly to the item's width
+			type mid struct {
+				k    ref.Kind
+				text string
+				rat  *big.Rat
+			}
+			var mids []mid
+			addMid := func(k ref.Kind, lo, hi float64) {
+				m := new(big.Rat).Add(new(big.Rat).SetFloat64(lo), new(big.Rat).SetFloat64(hi))
+				m.Quo(m, big.NewRat(2, 1))
+				exact := m.FloatString(160)
+				exact = strings.TrimRight(strings.TrimRight(exact, "0"), ".")
+				if !strings.Contains(exact, ".") {
+					exact += ".0"
+				}
+				for _, t := range []string{exact, exact + "0000000001", exact + "1"} {
+					r, _ := new(big.Rat).SetString(t)
+					mids = append(mids, mid{k, t, r})
+				}
+				// just below: decrement the last digit of the exact expansion (it is never 0 after trimming) and append 9s
+				b := []byte(exact)
+				if last := len(b) - 1; b[last] > '0' && b[last] <= '9' {
+					b[last]--
+					t := string(b) + "9999999999"
+					r, _ := new(big.Rat).SetString(t)
+					mids = append(mids, mid{k, t, r})
+				}
+				// 17-20 significant digits around the midpoint (what a double-rounding conversion gets wrong)
+				f := new(big.Float).SetPrec(400).SetRat(m)
+				for _, digits := range []int{17, 18, 19, 20, 25} {
+					for _, delta := range []int64{-1, 0, 1} {
+						t := f.Text('e', digits-1)
+						// bump the last mantissa digit by delta through a rational re-rendering
+						r, ok := new(big.Rat).SetString(t)
+						if !ok {
+							continue
+						}
+						if delta != 0 {
+							ulp := new(big.Rat).Mul(new(big.Rat).Abs(r), new(big.Rat).SetFrac(big.NewInt(delta), new(big.Int).Exp(big.NewInt(10), big.NewInt(int64(digits-1)), nil)))
+							r.Add(r, ulp)
+							t = new(big.Float).SetPrec(400).SetRat(r).Text('e', digits+2)
+							r, _ = new(big.Rat).SetString(t)
+						}
+						mids = append(mids, mid{k, t, r})
+					}
+				}
+			}
+			for _, b := range []uint32{0x3f800000, 0x3f800001, 0x4b800000, 0x4b7fffff, 0x3dcccccd, 0x7f7ffffe, 0x00800000, 0x00000001, 0x007fffff, 0x42c80000, 0x0da24260, 0x5d5e0b6b} {
+				addMid(ref.F4, float64(math.Float32frombits(b)), float64(math.Float32frombits(b+1)))
+			}
+			for _, b := range []uint64{0x3ff0000000000000, 0x3ff0000000000001, 0x4340000000000000, 0x3fb999999999999a, 0x7feffffffffffffe, 0x0010000000000000, 0x0000000000000001} {
+				addMid(ref.F8, math.Float64frombits(b), math.Float64frombits(b+1))
+			}
+			sp = append(sp, h.Space{Name: "float-literals-around-rounding-midpoints", Count: uint64(len(mids) * 2),
+				Describe: func(i uint64) interface{} { return fmt.Sprintf("%s literal %s sign %d", mids[i/2].k, trunc(mids[i/2].text, 60), i%2) },
+				Run: func(c *h.Ctx, i uint64) {
+					m := mids[i/2]
+					l := literal{Text: m.text, Class: "float", Rat: m.rat}
+					if i%2 == 1 {
+						l.Text, l.Rat, l.Neg = "-"+m.text, new(big.Rat).Neg(m.rat), true
+					}
+					c.Case(h.DigestS(l.Text, m.k.String()), true, runLiteral(c, m.k, l, int(i%3), false))
+				}})
 			// every 1- and 2-character printable ASCII string (minus the quote), verbatim
 			const lo, hi = 32, 126
 			n1 := hi - lo + 1
